@@ -1160,6 +1160,39 @@ func (g *Gen) loopEnv(li *loopInfo, st *State, phiVals map[*ssa.Phi]string) *Env
 		}
 		return ins.Block() != h && ins.Block().Dominates(h)
 	}
+	// a named variable that lives on the heap (captured by a closure, address taken) has no address DebugRef in SSA; find
+	// its Alloc by name
+	heapAllocs := map[string][]*ssa.Alloc{}
+	for _, b := range g.fn.Blocks {
+		for _, ins := range b.Instrs {
+			if al, ok := ins.(*ssa.Alloc); ok && al.Heap && al.Comment != "" && al.Comment != "complit" && al.Comment != "new" {
+				heapAllocs[al.Comment] = append(heapAllocs[al.Comment], al)
+			}
+		}
+	}
+	for name, als := range heapAllocs {
+		if _, has := addrByName[name]; !has && len(als) == 1 {
+			if _, named := byName[name]; named {
+				addrByName[name] = als[0]
+			}
+		}
+	}
+	// variables that live in memory (address-taken, e.g. captured by a closure): their current content, not a value once stored
+	for name, a := range addrByName {
+		if _, shadow := e.vars[name]; shadow {
+			continue
+		}
+		if al, ok := a.(*ssa.Alloc); ok {
+			et := al.Type().Underlying().(*types.Pointer).Elem()
+			if !g.escape[al] {
+				if t, has := st.locals[al]; has {
+					e.vars[name] = tv{t: t, ty: goT(et)}
+				}
+			} else if t, has := g.val[al]; has && dominatesHeader(al) {
+				e.vars[name] = tv{t: e.load(t, et, ""), ty: goT(et), ref: t}
+			}
+		}
+	}
 	for name, vs := range byName {
 		if _, shadow := e.vars[name]; shadow {
 			continue // parameters (and lets) are never shadowed by a local of the same name
@@ -1213,21 +1246,6 @@ func (g *Gen) loopEnv(li *loopInfo, st *State, phiVals map[*ssa.Phi]string) *Env
 		}
 		if len(cands) == 1 {
 			e.vars[name] = tv{t: g.term(cands[0]), ty: goT(cands[0].Type())}
-		}
-	}
-	for name, a := range addrByName {
-		if _, shadow := e.vars[name]; shadow {
-			continue
-		}
-		if al, ok := a.(*ssa.Alloc); ok {
-			et := al.Type().Underlying().(*types.Pointer).Elem()
-			if !g.escape[al] {
-				if t, has := st.locals[al]; has {
-					e.vars[name] = tv{t: t, ty: goT(et)}
-				}
-			} else if t, has := g.val[al]; has && dominatesHeader(al) {
-				e.vars[name] = tv{t: e.load(t, et, ""), ty: goT(et), ref: t}
-			}
 		}
 	}
 	// phis of the header (and of enclosing loop headers, current values)
